@@ -22,7 +22,7 @@ def _env():
 
 def dump_mir(repo, workdir):
     """MIR of the library as compiled from the current working tree of `repo` (regenerated on every run)."""
-    tdir = os.path.join(CACHE, "mir")
+    tdir = os.path.join(CACHE, "mir" if os.path.realpath(repo) == "/repo" else "mir_alt")
     os.makedirs(tdir, exist_ok=True)
     # force rustc to run again even if cargo considers the crate fresh
     for d in glob.glob(os.path.join(tdir, "debug", ".fingerprint", "rpm-*")):
@@ -30,7 +30,8 @@ def dump_mir(repo, workdir):
     out = os.path.join(workdir, "rpm.mir")
     env = _env()
     env["CARGO_TARGET_DIR"] = tdir
-    cmd = ["cargo", "+nightly", "rustc", "--offline", "--lib", "--no-default-features", "--", "-Zunpretty=mir",
+    # signature-pgp (which implies signature-meta and chrono) so that the signing/verifying code is part of the dump
+    cmd = ["cargo", "+nightly", "rustc", "--offline", "--lib", "--no-default-features", "--features", "signature-pgp", "--", "-Zunpretty=mir",
            "-C", "debug-assertions=off", "-C", "overflow-checks=on"]
     with open(out, "w") as fo, open(out + ".err", "w") as fe:
         p = subprocess.run(cmd, cwd=repo, env=env, stdout=fo, stderr=fe, timeout=1800)
@@ -39,19 +40,33 @@ def dump_mir(repo, workdir):
     return out, ""
 
 
-def build_native(workdir):
+def build_native(workdir, repo="/repo"):
     env = _env()
-    env["CARGO_TARGET_DIR"] = os.path.join(CACHE, "native")
-    lock_src = "/repo/Cargo.lock"
+    src = os.path.join(VERIF, "native")
+    tdir = os.path.join(CACHE, "native")
+    if os.path.realpath(repo) != "/repo":
+        # checks pointed at another checkout (VERIF_REPO): same helper, path dependency rewritten
+        src = os.path.join(workdir, "native")
+        shutil.rmtree(src, ignore_errors=True)
+        shutil.copytree(os.path.join(VERIF, "native"), src)
+        ct = open(os.path.join(src, "Cargo.toml")).read().replace('path = "/repo"', 'path = "%s"' % repo)
+        open(os.path.join(src, "Cargo.toml"), "w").write(ct)
+        tdir = os.path.join(CACHE, "native_alt")
+    env["CARGO_TARGET_DIR"] = tdir
     try:
-        shutil.copy(lock_src, os.path.join(VERIF, "native", "Cargo.lock"))
+        shutil.copy(os.path.join(repo, "Cargo.lock"), os.path.join(src, "Cargo.lock"))
     except OSError:
         pass
-    p = subprocess.run(["cargo", "build", "--offline"], cwd=os.path.join(VERIF, "native"), env=env, stdout=subprocess.PIPE,
+    p = subprocess.run(["cargo", "build", "--offline"], cwd=src, env=env, stdout=subprocess.PIPE,
                        stderr=subprocess.STDOUT, timeout=1800)
-    binp = os.path.join(CACHE, "native", "debug", "rpm-native-replay")
+    binp = os.path.join(tdir, "debug", "rpm-native-replay")
     if p.returncode != 0 or not os.path.exists(binp):
         return None, p.stdout.decode(errors="replace")[-3000:]
+    if tdir.endswith("native_alt"):
+        # keep a private copy: another run may rebuild the shared alt target dir
+        priv = os.path.join(workdir, "rpm-native-replay")
+        shutil.copy(binp, priv)
+        binp = priv
     return binp, ""
 
 
@@ -69,7 +84,7 @@ def setup(log):
 def run_many(hs, repo, workdir, tier, seed, jobs, replay_dir):
     t0 = time.time()
     mirp, err = dump_mir(repo, workdir)
-    binp, err2 = (None, "") if mirp is None else build_native(workdir)
+    binp, err2 = (None, "") if mirp is None else build_native(workdir, repo)
     results = {}
     if mirp is None or binp is None:
         for h in hs:
@@ -79,7 +94,7 @@ def run_many(hs, repo, workdir, tier, seed, jobs, replay_dir):
     def one(h):
         out = os.path.join(workdir, "mirsmt_%s.json" % h["name"])
         cmd = ["python3-vt", os.path.join(HERE, "mirsmt_main.py"), "--harness", h["name"], "--mir", mirp, "--native", binp,
-               "--out", out, "--seed", str(seed), "--replay-dir", replay_dir]
+               "--out", out, "--seed", str(seed), "--replay-dir", replay_dir, "--repo", repo]
         try:
             subprocess.run(cmd, stdout=subprocess.PIPE, stderr=subprocess.STDOUT, timeout=h.get("timeout", 600))
         except subprocess.TimeoutExpired:
